@@ -208,6 +208,12 @@ def shapes_dict_keys(ctx) -> Set[str]:
         for e in p.events:
             if e.kind == 'setitem' and e.data[1][0] == 'const':
                 ks.add(e.data[1][1])
+        r = p.retval
+        if p.status == 'return' and r is not None:
+            if r[0] == 'dict':                      # {'k': v, ...}
+                ks |= {k[1] for k, _ in r[1] if k[0] == 'const'}
+            if is_call(r, 'builtins.dict'):         # dict(k=v, ...)
+                ks |= {k for k, _ in r[3] if k != '**'}
     if not ks:
         raise AnalysisError('shapes_dict writes no key')
     return ks
